@@ -555,6 +555,9 @@ func TestCheck(t *testing.T) {
 	ps := &permStats{other: map[string]int{}, witness: map[string]*permCase{}, rootBySub: map[string]int{}}
 	permInfo := runPerm(r, ps)
 
+	// -- manifests that change: update histories, forged groups, natives appearing with hardforks
+	updInfo := runUpd(r)
+
 	// -- a subset through real blocks: the compiled contract's operations, all flag sets
 	btxs, bhalt, bagree := flagsInBlocks(r, nil)
 
@@ -691,6 +694,7 @@ func TestCheck(t *testing.T) {
 		"chain_exact_intersection":                    int(chainExact.Get()),
 		"chain_cases_halted":                          chainDone - int(chainFault.Get()),
 		"permission":                                  permInfo,
+		"update_histories":                            updInfo,
 		"verification_contexts":                       verifInfo,
 		"invalid_flag_values":                         badInfo,
 		"universal_shrink_executions_with_growth":     grewN,
